@@ -29,14 +29,28 @@ use crate::util::{h2, Json, Opts, Report, Rng};
 
 const FOCUS: &[u32] = &[site::SCHED_LOCKED_BEFORE_TIME_READ, site::STEP_TIME_WRITTEN, site::STEP_LOCKED, site::STEP_ACTION_PULLED, site::CELL_WRITE_ODD, site::CELL_WRITE_STORED, site::TIME_STORE_HALF, site::STEP_BEFORE_SYNC];
 
+/// Period of the periodic requests of the threaded part: far beyond the
+/// horizon of a case, so only the first occurrence lies inside it.
+const FAR_PERIOD: u64 = 1 << 40;
+
 #[derive(Clone, Copy)]
 struct Req {
     uid: u64,
+    /// Absolute deadline, or the relative delay when `relative` is set.
     deadline: u64,
     t_before: u64,
     t_after: u64,
     ok: bool,
+    /// 0 schedule_event, 1 schedule_keyed_event, 2 schedule_periodic_event,
+    /// 3 schedule_keyed_periodic_event, 4 schedule(source.event),
+    /// 5 schedule(source.keyed_event), 6 schedule(source.periodic_event),
+    /// 7 schedule(source.keyed_periodic_event).
+    api: u8,
+    relative: bool,
+    periodic: bool,
 }
+
+const API_NAMES: [&str; 8] = ["schedule_event", "schedule_keyed_event", "schedule_periodic_event", "schedule_keyed_periodic_event", "schedule(EventSource::event)", "schedule(EventSource::keyed_event)", "schedule(EventSource::periodic_event)", "schedule(EventSource::keyed_periodic_event)"];
 
 fn threaded_case(rep: &mut Report, opts: &Opts, case: u64) {
     let cs = h2(opts.seed, 0xC08_7000 + case);
@@ -66,7 +80,7 @@ fn threaded_case(rep: &mut Report, opts: &Opts, case: u64) {
     let addr = built.addrs[0].clone().unwrap();
     let stop = Arc::new(AtomicBool::new(false));
     let backwards = Arc::new(AtomicU64::new(0));
-    let per_thread = if cfg!(miri) { 6 } else { opts.n(400, 4000) };
+    let per_thread = if cfg!(miri) { 6 } else { opts.n(1000, 4000) };
     let mut handles = Vec::new();
     for th in 0..nthreads {
         let sched = sched.clone();
@@ -78,30 +92,72 @@ fn threaded_case(rep: &mut Report, opts: &Opts, case: u64) {
         handles.push(std::thread::spawn(move || {
             let mut reqs: Vec<Req> = Vec::new();
             let mut last_seen = 0u64;
+            let mut keys = Vec::new();
+            let mut source: nexosim::ports::EventSource<bench::Msg> = nexosim::ports::EventSource::new();
+            source.connect(Node::on_event, &addr);
+            let mut periodics = 0u32;
             for i in 0..per_thread {
                 if stop.load(Relaxed) {
                     break;
                 }
                 let uid = h2(h2(sh.spec.seed, th as u64 + 100), i);
+                // Every entry point of the global scheduler; periodic ones are
+                // capped because each keeps re-occurring far in the future.
+                let mut api = rng.below(8) as u8;
+                if matches!(api, 2 | 3 | 6 | 7) {
+                    if periodics >= 1000 {
+                        api = if api == 3 || api == 7 { 1 } else { 0 };
+                    } else {
+                        periodics += 1;
+                    }
+                }
+                let periodic = matches!(api, 2 | 3 | 6 | 7);
+                let relative = rng.chance(1, 4);
                 let t_before = to_ns(sched.time());
                 if t_before < last_seen {
                     backwards.fetch_add(1, Relaxed);
                 }
-                // Deadlines clustered around "now": -1 .. +3 ns.
+                // Deadlines clustered around "now": -1 .. +3 ns (relative: 0 .. 3 ns).
                 let off = rng.below(5);
-                let deadline = (t_before + off).saturating_sub(1);
+                let abs = (t_before + off).saturating_sub(1);
+                let rel = rng.below(4);
                 let m = sh.new_msg(uid, 0, 1);
-                let r = sched.schedule_event(from_ns(deadline), Node::on_event, m, &addr);
+                let period = Duration::from_nanos(FAR_PERIOD);
+                macro_rules! call {
+                    ($d:expr) => {
+                        match api {
+                            0 => sched.schedule_event($d, Node::on_event, m, &addr).is_ok(),
+                            1 => sched.schedule_keyed_event($d, Node::on_event, m, &addr).map(|k| keys.push(k)).is_ok(),
+                            2 => sched.schedule_periodic_event($d, period, Node::on_event, m, &addr).is_ok(),
+                            3 => sched.schedule_keyed_periodic_event($d, period, Node::on_event, m, &addr).map(|k| keys.push(k)).is_ok(),
+                            4 => sched.schedule($d, source.event(m)).is_ok(),
+                            5 => {
+                                let (a, k) = source.keyed_event(m);
+                                keys.push(k);
+                                sched.schedule($d, a).is_ok()
+                            }
+                            6 => sched.schedule($d, source.periodic_event(period, m)).is_ok(),
+                            _ => {
+                                let (a, k) = source.keyed_periodic_event(period, m);
+                                keys.push(k);
+                                sched.schedule($d, a).is_ok()
+                            }
+                        }
+                    };
+                }
+                let ok = if relative { call!(Duration::from_nanos(rel)) } else { call!(from_ns(abs)) };
                 let t_after = to_ns(sched.time());
                 if t_after < t_before {
                     backwards.fetch_add(1, Relaxed);
                 }
                 last_seen = t_after;
-                reqs.push(Req { uid, deadline, t_before, t_after, ok: r.is_ok() });
+                reqs.push(Req { uid, deadline: if relative { rel } else { abs }, t_before, t_after, ok, api, relative, periodic });
                 if rng.chance(1, 8) {
                     std::thread::yield_now();
                 }
             }
+            // Keys are kept alive (dropping an ActionKey does not cancel).
+            drop(keys);
             reqs
         }));
     }
@@ -141,7 +197,7 @@ fn threaded_case(rep: &mut Report, opts: &Opts, case: u64) {
     }
     // Drain everything that was accepted.
     if step_err.is_none() {
-        let horizon = all.iter().filter(|r| r.ok).map(|r| r.deadline).max().unwrap_or(0);
+        let horizon = all.iter().filter(|r| r.ok).map(|r| if r.relative { r.t_after + r.deadline } else { r.deadline }).max().unwrap_or(0);
         while to_ns(simu.time()) < horizon {
             if let Err(e) = simu.step() {
                 step_err = Some(bench::fmt_exec_error(&e));
@@ -167,10 +223,11 @@ fn threaded_case(rep: &mut Report, opts: &Opts, case: u64) {
             seen.entry(*uid).or_default().push(*t);
         }
     }
-    let ctx = |r: &Req| format!("request uid {:x}: deadline {}, time before call {}, after call {}, accepted {}", r.uid, r.deadline, r.t_before, r.t_after, r.ok);
+    let ctx = |r: &Req| format!("request uid {:x} through {}: {} {}, time before call {}, after call {}, accepted {}", r.uid, API_NAMES[r.api as usize], if r.relative { "relative delay" } else { "deadline" }, r.deadline, r.t_before, r.t_after, r.ok);
     let mut accepted = 0u64;
     let mut rejected = 0u64;
     let mut racy = 0u64;
+    let mut per_api = [0u64; 8];
     if let Some(e) = &step_err {
         rep.violation("C08/stepping-failed-under-concurrent-scheduling", format!("a stepping call returned {:?} while scheduler handles were used concurrently", e), replay.clone());
     }
@@ -178,28 +235,50 @@ fn threaded_case(rep: &mut Report, opts: &Opts, case: u64) {
         if r.t_before != r.t_after {
             racy += 1;
         }
+        per_api[r.api as usize] += 1;
+        // The deadline of a relative request is `now + delay` with `now` read
+        // inside the call: it lies between the two reads that bracket the call.
+        let (dl_lo, dl_hi) = if r.relative { (r.t_before + r.deadline, r.t_after + r.deadline) } else { (r.deadline, r.deadline) };
         if r.ok {
             accepted += 1;
-            if r.deadline <= r.t_before {
+            if !r.relative && r.deadline <= r.t_before {
+                rep.violation("C08/accepted-deadline-not-in-future", ctx(r), replay.clone());
+            }
+            if r.relative && r.deadline == 0 {
                 rep.violation("C08/accepted-deadline-not-in-future", ctx(r), replay.clone());
             }
             if step_err.is_none() {
                 match seen.get(&r.uid).map(|v| v.as_slice()) {
-                    Some([t]) if *t == r.deadline => {}
-                    Some([t]) => rep.violation("C08/accepted-request-fired-at-wrong-time", format!("{}; processed at time {}", ctx(r), t), replay.clone()),
-                    Some(v) => rep.violation("C08/accepted-request-fired-more-than-once", format!("{}; processed at {:?}", ctx(r), v), replay.clone()),
-                    None => rep.violation("C08/accepted-request-never-fired", ctx(r), replay.clone()),
+                    None | Some([]) => rep.violation("C08/accepted-request-never-fired", ctx(r), replay.clone()),
+                    Some(v) => {
+                        let first = v[0];
+                        if first < dl_lo || first > dl_hi {
+                            rep.violation("C08/accepted-request-fired-at-wrong-time", format!("{}; processed at time {}", ctx(r), first), replay.clone());
+                        }
+                        // Occurrences of one request are handled by one model, in
+                        // time order: occurrence k must be at first + k * period.
+                        let regular = v.iter().enumerate().all(|(k, t)| r.periodic && *t == first + k as u64 * FAR_PERIOD);
+                        if v.len() > 1 && !regular {
+                            rep.violation("C08/accepted-request-fired-more-than-once", format!("{}; processed at {:?} (period {})", ctx(r), v, if r.periodic { FAR_PERIOD } else { 0 }), replay.clone());
+                        }
+                    }
                 }
             }
         } else {
             rejected += 1;
-            if r.deadline > r.t_after {
+            if !r.relative && r.deadline > r.t_after {
+                rep.violation("C08/rejected-deadline-in-future", ctx(r), replay.clone());
+            }
+            if r.relative && r.deadline > 0 {
                 rep.violation("C08/rejected-deadline-in-future", ctx(r), replay.clone());
             }
             if seen.contains_key(&r.uid) {
                 rep.violation("C08/rejected-request-fired", ctx(r), replay.clone());
             }
         }
+    }
+    for (i, n) in per_api.iter().enumerate() {
+        rep.count(&format!("requests_through_{}", API_NAMES[i]), *n);
     }
     let b = backwards.load(Relaxed) + main_backwards;
     if b > 0 {
@@ -232,7 +311,7 @@ pub fn run(opts: &Opts) -> Report {
         sim::run_family(&mut rep, opts, &FamilyRun { prop: "C08", part: "grid", cases: opts.n(if cfg!(miri) { 4 } else { 400 }, 10000), gen: &|s| gen::gen_timer(s, &to), set: ExecSet::StOnly, pools: &[], nontrivial: &|s, _| s.sched_rejected > 0 && s.sched_ok > 0, predict: true, also: &[] });
     }
     if want("threads") {
-        let n = if cfg!(miri) { 2 } else { opts.n(160, 2400) };
+        let n = if cfg!(miri) { 2 } else { opts.n(480, 4800) };
         for case in 0..n {
             if opts.mine(case) {
                 threaded_case(&mut rep, opts, case);
